@@ -59,6 +59,18 @@ def run(ctx: Ctx):
               ' the prefetch queue while holding the generator lock the stop'
               ' path needs (R-C04-4 lock order / no wait under a second lock)',
               c04.r4, qmodel(ctx), min_instances=3)
+  from mlmverif.props import c06, c20
+  ctx.include('R-C14-11', '"returns the same value ... as evaluating it locally": a'
+              ' call to a healthy server is refused with "worker disconnected"'
+              ' when the recorded heartbeat moves backwards (a long call that'
+              ' completes late refreshes with its issue time): refresh stores'
+              ' max(previous, new) atomically (R-C20-2)', c20.r2, min_instances=3)
+  ctx.include('R-C14-12', '"remote iterators ... signal exhaustion once" and the next'
+              ' evaluation still answers: the capacity placeholder a remote'
+              ' iteration puts into the pending list is cancelled on every exit'
+              ' (failure of the remote generator, close), otherwise every later'
+              ' evaluation on that client waits for capacity forever (R-C06-8)',
+              c06.r8, min_instances=1)
 
 
 def _remote_shared(sub, m):
